@@ -66,10 +66,16 @@ def gen_case12(rng, name, idx):
         main = main[:2]
     c.meta.update(arity=arity, keyed=keyed, reload=reload, default=has_default, spec=spec)
     nb = 4 if has_default else 3
+    next_sid = 0
     for b in range(nb):
-        g = ProgGen(rng, c, uid, allow_sub=False, allow_fb=rng.random() < 0.15, allow_sched=False)
+        # a third of the branches place part of their body in a nested (or inlined) sub-graph: a nested graph that is started
+        # mid-run inside a dynamic child must sample the values its boundary inputs already hold
+        subs = rng.random() < 0.35
+        g = ProgGen(rng, c, uid, allow_sub=subs, allow_fb=rng.random() < 0.15, allow_sched=False, max_depth=2)
+        g.next_sid = next_sid
         params = ["p0", "p1"] if (keyed or arity == 2) else ["p0"]
-        body = g.body(f"b{b}", params, rng.choice([1, 2, 4]), 5, True)
+        body = g.body(f"b{b}", params, rng.choice([1, 2, 4]) + (2 if subs else 0), 1 if subs else 5, True)
+        next_sid = g.next_sid
         for st in body:
             if st.op == "src":
                 st.kw["rel"] = 1
@@ -100,7 +106,15 @@ def sampled(ticks, t0):
     return sc
 
 
-def standalone(case, branch, t0, t1, key, kticks, aticks, bticks, emulate=False, stale_out=None):
+def sample_origin(ticks, t0):
+    """Original time of a value that is only SAMPLED at t0 (None when the source really ticks at t0 or holds nothing)."""
+    before = [t for t, v in ticks if t < t0]
+    if before and not any(t == t0 for t, v in ticks):
+        return before[-1]
+    return None
+
+
+def standalone(case, branch, t0, t1, key, kticks, aticks, bticks, emulate=False, stale_out=None, nested_unmodified=False):
     c = Case("solo", t0, t1)
     c.scripts = {u: list(sc) for u, sc in case.scripts.items()}
     main = []
@@ -116,8 +130,11 @@ def standalone(case, branch, t0, t1, key, kticks, aticks, bticks, emulate=False,
         c.scripts[1002] = sampled(bticks, t0)
         main.append(S("bc", "src", uid=1002, mode=1))
         args.append("bc")
-    c.graphs["sub0"] = copy.deepcopy(case.graphs[f"fn{branch}"])
-    main.append(S("o", "nested", *args, sid=0))
+    for gname, sts in case.graphs.items():
+        if gname.startswith("sub"):
+            c.graphs[gname] = copy.deepcopy(sts)
+    c.graphs["sub900"] = copy.deepcopy(case.graphs[f"fn{branch}"])
+    main.append(S("o", "nested", *args, sid=900))
     main.append(S("", "rec", "o", uid=1004))
     c.graphs["main"] = main
     flat = M.flatten(c)
@@ -129,8 +146,14 @@ def standalone(case, branch, t0, t1, key, kticks, aticks, bticks, emulate=False,
         term = rec.ins[0].target
         if term.uid not in SOLO:
             preset = {term.id: stale_out}
-    mr = M.simulate(flat, emulate_sampled_start=emulate, preset=preset)
+    si = None
+    if nested_unmodified:
+        # every boundary source: the original time of a value that is only sampled, None for one that really ticks at t0 (its
+        # tick precedes the start of the branch in that cycle, so readers behind a nested pass-through are not woken either)
+        si = {1001: sample_origin(aticks, t0), 1002: sample_origin(bticks, t0), 1003: sample_origin(kticks, t0)}
+    mr = M.simulate(flat, emulate_sampled_start=emulate, preset=preset, sampled_inputs=si)
     mr.used_preset = preset is not None
+    mr.used_nested_unmodified = mr.stats.get("nested_sampled_unmodified", 0) > 0
     return mr
 
 
@@ -140,7 +163,7 @@ def check(case, tr):
         res.violations.append(Violation(f"valid program rejected at build: {tr.build_error}"))
         return res
     run = tr.runs[0]
-    V, known, known2 = [], [], []
+    V, known, known2, known3 = [], [], [], []
     kt = [(t, v) for t, v in case.scripts[1] if case.start <= t < case.end]
     at = [(t, v) for t, v in case.scripts[2] if case.start <= t < case.end]
     bt = [(t, v) for t, v in case.scripts[3] if case.start <= t < case.end]
@@ -190,7 +213,10 @@ def check(case, tr):
         if ue.uid == 50:
             out_ticks.append((ue.t, ue.ins[0][3]))
         if gparent.get(ue.gid, -1) >= 0:
-            d = inst_runs.setdefault(ue.gid, {})
+            top = ue.gid
+            while gparent.get(top, 0) > 0:          # nested graphs inside a branch belong to the branch instance
+                top = gparent[top]
+            d = inst_runs.setdefault(top, {})
             if (ue.uid, ue.t) in d:
                 V.append(f"branch instance {ue.gid}: uid {ue.uid} ran twice at t={ue.t}")
             d[(ue.uid, ue.t)] = (ue.out, [(x[0], x[3]) for x in ue.ins])
@@ -214,12 +240,18 @@ def check(case, tr):
         got = inst_runs.get(gid, {}) if gid is not None else {}
         if got != exp:
             prev_out = [v for t, v in out_ticks if t < e["start"]]
-            for emu, stale in ((True, None), (False, prev_out[-1] if prev_out else None), (True, prev_out[-1] if prev_out else None)):
-                if not emu and stale is None:
+            po = prev_out[-1] if prev_out else None
+            for emu, stale, nun in ((True, None, False), (False, po, False), (True, po, False), (False, None, True), (True, None, True),
+                                    (False, po, True), (True, po, True)):
+                if not emu and stale is None and not nun:
                     continue
-                mr2 = standalone(case, e["branch"], e["start"], t1, e["key"], kt, at, bt, emulate=emu, stale_out=stale)
+                mr2 = standalone(case, e["branch"], e["start"], t1, e["key"], kt, at, bt, emulate=emu, stale_out=stale, nested_unmodified=nun)
                 exp2 = {(u, t): (o, [(x[0], x[3]) for x in ins]) for (u, t), (o, ins) in mr2.runs.items() if u not in SOLO}
-                if got == exp2 and (mr2.sampled or mr2.used_preset):
+                if got == exp2 and (mr2.sampled or mr2.used_preset or mr2.used_nested_unmodified):
+                    if mr2.used_nested_unmodified:
+                        known3.append(f"epoch at t={e['start']}: nodes behind a nested boundary inside the newly selected branch do not see "
+                                      f"the held inputs' values present at the selection as ticks (not modified / not woken through a nested "
+                                      f"pass-through), the same nodes inlined in the branch do")
                     if mr2.sampled:
                         known.append(f"epoch at t={e['start']}: all-Unchecked node(s) {mr2.sampled[:3]} ran at branch start on an unset held input")
                     if mr2.used_preset:
@@ -243,6 +275,8 @@ def check(case, tr):
         V.append(f"switch output ticks differ from the selected branches' outputs: missing {missing}, unexpected {extra}")
     for m in V[:6]:
         res.violations.append(Violation(m))
+    if known3:
+        res.violations.append(Violation(known3[0], "nested-in-dynamic-child-sampled-input-not-modified"))
     if known:
         res.violations.append(Violation(known[0], "nested-start-samples-unset-source"))
     if known2:
